@@ -941,7 +941,10 @@ class AdapterRegistry(BaseAdapterRegistry):
     def __init__(self, bases=()):
         # AdapterRegisties are invalidating registries, so
         # we need to keep track of our invalidating subregistries.
-        self._v_subregistries = weakref.WeakKeyDictionary()
+        # (``rebuild`` runs this again: the registries that are based
+        # on us still are, and still need to hear of our changes.)
+        if '_v_subregistries' not in self.__dict__:
+            self._v_subregistries = weakref.WeakKeyDictionary()
 
         super().__init__(bases)
 
